@@ -112,6 +112,7 @@ class JsonTables:
         self.read = {}        # class -> {param: (shape, key, node)}
         self.read_keys = {}   # class -> set of keys subscripted for that class
         self.read_site = {}   # class -> (func, call node)
+        self.read_bases = {}  # class -> {variable the saved object is read through: [(key, node), ...]}  (syntactic readers only)
         self.ctor = {}        # class -> [params]
         self.relink = {}      # (class, attr) -> (shape, node)
         self.relink_conditional = {}  # (class, attr) -> enclosing If/While/Try node
@@ -199,6 +200,16 @@ class JsonTables:
                 if isinstance(v, ast.Call) and isinstance(v.func, ast.Name) and v.func.id == "dict":
                     return {kw.arg: kw.value for kw in v.keywords if kw.arg}
                 return {}
+            def own_nodes(v):
+                """nodes of an argument expression, without the arguments of constructor calls nested in it (those objects read
+                their own keys, from their own record)"""
+                todo = [v]
+                while todo:
+                    x = todo.pop()
+                    yield x
+                    if isinstance(x, ast.Call) and isinstance(x.func, ast.Name) and x.func.id in self.ctor and x is not v and len(x.keywords) >= 3:
+                        continue
+                    todo.extend(ast.iter_child_nodes(x))
             for n in ast.walk(fnode):
                 if not (isinstance(n, ast.Call) and isinstance(n.func, ast.Name) and n.keywords):
                     continue
@@ -217,11 +228,20 @@ class JsonTables:
                     for kw in n.keywords:
                         if kw.arg is None:
                             kws.extend(dict_items(kw.value, cn).items())
+                    bases = {}
                     for name, val in kws:
                         params[name] = decoder_shape(val) + (val,)
-                        for x in ast.walk(val):
+                        bound = {t.id for c0 in ast.walk(val) if isinstance(c0, ast.comprehension) for t in ast.walk(c0.target) if isinstance(t, ast.Name)}
+                        bound |= {a0.arg for l0 in ast.walk(val) if isinstance(l0, ast.Lambda) for a0 in l0.args.args}
+                        for x in own_nodes(val):
                             if isinstance(x, ast.Subscript) and isinstance(x.slice, ast.Constant) and isinstance(x.slice.value, str):
                                 keys.add(x.slice.value)
+                                if isinstance(x.value, ast.Name) and x.value.id not in bound:
+                                    bases.setdefault(x.value.id, []).append((x.slice.value, x))
+                            elif isinstance(x, ast.Call) and isinstance(x.func, ast.Attribute) and x.func.attr == "get" and isinstance(x.func.value, ast.Name) \
+                                    and x.func.value.id not in bound and x.args and isinstance(x.args[0], ast.Constant) and isinstance(x.args[0].value, str):
+                                bases.setdefault(x.func.value.id, []).append((x.args[0].value, x))
+                    self.read_bases[cn] = bases
                     self.read[cn] = params
                     self.read_keys[cn] = keys
                     self.read_site[cn] = (f, n)
@@ -310,7 +330,12 @@ class JsonTables:
                         continue
                     ctor = self.ctor[cn]
                     params, keys = {}, set()
+                    bases = {}
                     for k, v in e.args.items():
+                        if isinstance(v, Unk):
+                            mm = re.search(r"(JSON(?:\['\w+'\]|\[\*\d*\])*)\['(\w+)'\]", v.tag)
+                            if mm:
+                                bases.setdefault(re.sub(r"\[\*\d+\]", "[*]", mm.group(1)), []).append((mm.group(2), e.node))
                         pn = ctor[k] if isinstance(k, int) and k < len(ctor) else k
                         if not isinstance(pn, str) or pn.startswith("__"):
                             continue
@@ -324,6 +349,7 @@ class JsonTables:
                         self.read[cn] = params
                         self.read_keys[cn] = keys
                         self.read_site[cn] = (f, e.node)
+                        self.read_bases[cn] = bases
 
     def _project(self):
         r = self.ctx.repo
